@@ -5,7 +5,7 @@ import spec
 from props.common import load_impl, make_prov, exc_name, rand_keys, rand_ckeys
 
 RULE = ("random ragged DNF lists (rows 1-6, disjuncts 1-3, conjuncts 1-3, 2-3 candidates, value-0 literals, repeated units) "
-        "x ALL assignments x encodings (ndarray, list, dict with omitted units) x dtypes (bool, int); compared with the Lean model "
+        "x ALL assignments x encodings (int64 / int32 / uint8 / bool ndarray, int and bool list, dict with omitted units) x dtypes (bool, int); compared with the Lean model "
         "Ds.Prov.query/ofExprs and with a structural truth evaluation of the source expressions. Non-trivial = the container holds "
         "padding (rows of different shapes) and some row's truth value varies over the assignments; distinct = distinct expression lists.")
 
@@ -30,9 +30,19 @@ def one_case(ctx, I, n_units, n_cands, exprs):
             # dict encoding: drop the units that hold the first candidate with probability 1/2
             d = {keys[u]: ckeys[a[u]] for u in range(n_units) if not (a[u] == 0 and (u + sum(a)) % 2 == 0)}
             m_dict = [bool(x) for x in np.asarray(prov.query(d)).tolist()]
+            alt = {}
+            if n_cands == 2:      # an assignment over two candidates is legitimately a boolean / unsigned indicator vector (candidate INDEX per unit)
+                alt["bool array"] = [bool(x) for x in np.asarray(prov.query(np.array(a, dtype=bool))).tolist()]
+                alt["bool list"] = [bool(x) for x in np.asarray(prov.query([bool(x) for x in a])).tolist()]
+            alt["uint8 array"] = [bool(x) for x in np.asarray(prov.query(np.array(a, dtype=np.uint8))).tolist()]
+            alt["int32 array"] = [bool(x) for x in np.asarray(prov.query(np.array(a, dtype=np.int32))).tolist()]
         except Exception as e:  # noqa
             bad = (a, exc_name(e), repr(e))
             break
+        if any(v != m_arr for v in alt.values()):
+            ctx.mismatch("the answer depends on the dtype of the assignment vector", dict(nUnits=n_units, nCands=n_cands, exprs=exprs, assignment=a),
+                         impl=dict(int64=m_arr, **alt), spec=[spec.expr_true(e, a) for e in exprs])
+            return
         if not (m_arr == m_list == m_dict) or idx != [i for i, x in enumerate(m_arr) if x]:
             ctx.mismatch("encodings/dtypes disagree", dict(nUnits=n_units, nCands=n_cands, exprs=exprs, assignment=a),
                          impl=dict(array=m_arr, list=m_list, dict=m_dict, idx=idx), spec=[spec.expr_true(e, a) for e in exprs])
